@@ -9,6 +9,9 @@ PROPERTY = "C07"
 READY = True
 THEOREMS = [
     "C07.repo_order", "C07.repo_order_independent", "C07.cycle_rejected", "C07.repo_order_total",
+    "C07.included_first_partial", "C07.bumps_recorded", "C07.parent_version_in_from",
+    "C07.included_only_first_partial", "C07.parent_builds_nearest", "C07.included_first_reported_partial",
+    "C07.bump_build_reported_partial",
 ]
 TEXT = "BUG-9"
 NAMES = ["app", "core", "lib", "mid", "util", "zeta"]        # repository id = position (sorted() order of the names)
@@ -21,7 +24,9 @@ TRUSTED = ["tests/mock_git.py (synthetic git objects fed to the real ak.ghist co
            "sorted() on repository names (the model sorts the ranks of the names)",
            "iteration order of the set `relevant_cmpnts` is not observable: bumps are compared sorted by component"]
 ASSUMPTIONS = ["commit times inside the cut-off windows (quantifier): no branch skipped, every component with reported builds relevant",
-               "component build numbers increase along history; pins never decrease along a path and name existing builds",
+               "component build numbers increase along history; pins name existing builds and never decrease along a path, read as "
+               "containment: the newly pinned component build contains the previously pinned one (scenarios with incomparable "
+               "consecutive pins, tag 'pin-crosses-parallel-builds', are compared with the model but not judged)",
                "ASCII ref names; fewer than 10^9 report commits per repository"]
 
 translate = G.translate
@@ -135,7 +140,7 @@ def impl(case):
                 out.append("ok " + (",".join(str(NAMES.index(x)) for x in rc.sorted_repos) or "-"))
             elif op == "col":
                 repos = [dec_repo(t) for t in args[1:]]
-                order, data = run_col(repos)
+                order, data = G.with_timeout(4, run_col, repos)
                 out.append("ok o=%s %s" % (",".join(str(NAMES.index(x)) for x in order) or "-",
                                            " ".join(_repo_text(rid, data[rid]) for rid in order)))
             else:
@@ -305,11 +310,12 @@ def known_component_merges(case):
 
 KNOWN = {"pin-crosses-parallel-component-builds": known_pin_cross,
          "component-history-with-merges": known_component_merges}
-# Genuine finding (reported, see LEVEL_NOTE): with a diamond of reported builds in the component history
-# `get_rbuilds_in_bump` registers builds again that an earlier parent build already shipped.  Until the coordinator
-# decides between a `fix:` commit and a `known` entry such scenarios are run for the correspondence only.
+# Component lines with merges (diamonds of reported builds) are judged: the defect found there was repaired by
+# 88b742a.  Scenarios whose consecutive pins are incomparable in the component history are outside the quantifier
+# ("the pinned version never decreases along a path" = the newly pinned build contains the previously pinned one):
+# they are generated for the correspondence but not judged.
 STRICT_PINS = False
-STRICT_MERGES = False
+STRICT_MERGES = True
 
 
 def check_included(repos, reports):
@@ -412,7 +418,7 @@ def gen_repo(rng, nbr_max, base_names, pmerge=0.15, pmatch=0.4):
                         ps.reverse()
             cid = len(commits)
             commits.append({"p": ps, "line": name, "tagged": rng.random() < 0.5, "m": 1 if rng.random() < pmatch else 0,
-                            "pins": {}})
+                            "pins": {}, "two": rng.random() < 0.2})
             parent = cid
             allc.append(cid)
         heads.append([name, parent])
@@ -426,11 +432,17 @@ def ver_of(name):
     return (int(a), int(b))
 
 
+def tag_nums(i, c):
+    """build numbers of the tags on commit i (increasing along history); a fifth of the tagged commits carry two"""
+    return [10 * i + 1, 10 * i + 2] if c.get("two") else [10 * i + 1]
+
+
 def finish_repo(commits, heads):
     for i, c in enumerate(commits):
         M, m = ver_of(c["line"])
-        c["t"] = [[M, m, i + 1, i + 1]] if c.pop("tagged") else []
+        c["t"] = [[M, m, n, n] for n in tag_nums(i, c)] if c.pop("tagged") else []
         c.pop("line")
+        c.pop("two", None)
     return {"commits": commits, "refs": heads}
 
 
@@ -442,7 +454,7 @@ def add_pins(rng, parent_commits, comp_name, comp_commits):
         idx[i] = min(len(builds) - 1, lo + rng.choice([0, 0, 1, 1, 2]))
         b = builds[idx[i]]
         M, m = ver_of(comp_commits[b]["line"])
-        c["pins"][comp_name] = [M, m, b + 1]
+        c["pins"][comp_name] = [M, m, rng.choice(tag_nums(b, comp_commits[b]))]
 
 
 def gen_dag_repo(rng, name, n, ptag=0.6, pmatch=0.5, pmerge=0.35):
@@ -456,7 +468,7 @@ def gen_dag_repo(rng, name, n, ptag=0.6, pmatch=0.5, pmerge=0.35):
             cands = list(range(max(0, i - 4), i))
             ps = rng.sample(cands, min(k, len(cands)))
         commits.append({"p": ps, "line": name, "tagged": i == 0 or rng.random() < ptag,
-                        "m": 1 if rng.random() < pmatch else 0, "pins": {}})
+                        "m": 1 if rng.random() < pmatch else 0, "pins": {}, "two": rng.random() < 0.2})
     return commits, [[name, n - 1]]
 
 
@@ -476,7 +488,7 @@ def add_pins_dag(rng, parent_commits, comp_name, comp_commits, comp_head, monoto
         cands = cands[:3] if cands else [max(prev)]
         pin[i] = rng.choice(cands)
         M, m = ver_of(comp_commits[pin[i]]["line"])
-        c["pins"][comp_name] = [M, m, pin[i] + 1]
+        c["pins"][comp_name] = [M, m, rng.choice(tag_nums(pin[i], comp_commits[pin[i]]))]
 
 
 LIB_LINES = ["release/10.20", "release/10.21", "master"]
@@ -641,7 +653,7 @@ def nontrivial(case, replies):
 
 
 def corpus():
-    # pins moving between parallel sub-branches of the component (see LEVEL_NOTE): correspondence only
+    # pins moving between parallel sub-branches of the component (outside the quantifier): correspondence only
     lib = {"commits": [{"p": [], "t": [[10, 20, 1, 1]], "m": 1, "pins": {}}, {"p": [0], "t": [[10, 20, 2, 2]], "m": 1, "pins": {}},
                        {"p": [0], "t": [[10, 20, 3, 3]], "m": 1, "pins": {}}, {"p": [1, 2], "t": [[10, 20, 4, 4]], "m": 0, "pins": {}}],
            "refs": [["release/10.20", 3]]}
@@ -651,7 +663,7 @@ def corpus():
            "refs": [["release/5.1", 2]]}
     out = [mk_case([{"name": "app", "deps": ["lib"], "hist": app}, {"name": "lib", "deps": [], "hist": lib}],
                    "corpus-pin-crosses-parallel-builds")]
-    # a diamond of reported component builds: 10.20.4 is registered again at the unbuilt head (see LEVEL_NOTE)
+    # a diamond of reported component builds: before 88b742a 10.20.4 was registered again at the unbuilt head
     lib2 = {"commits": [{"p": [], "t": [], "m": 0, "pins": {}}, {"p": [0], "t": [], "m": 0, "pins": {}},
                         {"p": [0], "t": [], "m": 0, "pins": {}}, {"p": [2, 0], "t": [[10, 20, 4, 4]], "m": 1, "pins": {}},
                         {"p": [2, 3], "t": [[10, 20, 5, 5]], "m": 1, "pins": {}}, {"p": [3, 1], "t": [[10, 20, 6, 6]], "m": 1, "pins": {}},
@@ -691,18 +703,27 @@ def tags(case, replies):
 LEVEL_TEXT = ("Repository ordering is fully proved on the model the driver runs (the DFS of ReposCollection.__init__ with its "
               "path-name stack): the result is a permutation with every component before its owners (repo_order), it depends "
               "only on the set of repositories (repo_order_independent), ValueError is raised exactly for cyclic dependency "
-              "graphs incl. self-dependencies (cycle_rejected) and nothing else can happen (repo_order_total). The included_at / "
-              "bump clauses rest on the executable model of _mk_bumps_info, bn_map, pending bumps, get_rbuilds_in_bump and the "
-              "registration loop being equal to the real code on generated multi-repository scenarios, judged by an independent "
-              "oracle (minimal own builds whose pin contains the component build); the Lean theorems about them are partial "
-              "(see the theorem list: *_partial).")
-LEVEL_NOTE = ("GENUINE FINDING: for a component history with a diamond of reported builds ComponentBump.get_rbuilds_in_bump stops "
-              "only at from_rbuilds, not at their ancestors, and registers component builds again that an earlier parent build "
-              "already shipped (corpus case 'corpus-component-diamond'; also when the pin moves between parallel component "
-              "builds, 'corpus-pin-crosses-parallel-builds'). Such scenarios are generated and compared (model = code) but not "
-              "judged by the included_at oracle until the coordinator records the finding (KNOWN matchers exist). Trusted: Lean "
-              "kernel, translator, adapter, mock git, sampled correspondence (2-3 repositories, linear and DAG-shaped components "
-              "and parents, 1-2 component release lines, both supply orders; 6-node dependency graphs). Not modelled: commit "
-              "times (inside the cut-off windows by the quantifier), repository names (ranks in sorted() order).")
-TECHNIQUE = ("Lean 4: DFS invariant (topological order, path stack) for the repository ordering; executable model of bumps / "
-             "bn_map / included_at + correspondence and spec oracle on multi-repository scenarios")
+              "graphs incl. self-dependencies (cycle_rejected) and nothing else can happen (repo_order_total). For included_at "
+              "and bumps the kernel-checked theorems are partial but hold for all inputs: the registration loop records a "
+              "component build at a parent build exactly when the build's new pinned version contains it and none of the "
+              "versions contained in the build's parent builds does, for every shape of the component's build graph "
+              "(included_first_partial, after the repair 88b742a); the stored bumps are the ones computed from the commit's pins, "
+              "bn_map and the parent builds' bumps (bumps_recorded); what a parent build's version contains is not registered "
+              "again at the next build (included_only_first_partial); an eligible commit that is not a reported build has only "
+              "trivial bumps (bump_build_reported_partial). The link from parent builds / bn_map to git ancestry rests on the "
+              "executable model being equal to the real code on generated multi-repository scenarios, judged by an independent "
+              "oracle (minimal own builds whose pin contains the component build).")
+LEVEL_NOTE = ("Found and repaired while building this check: get_rbuilds_in_bump re-registered component builds contained in "
+              "a previous version when the component history has a diamond of reported builds (fix 88b742a; witness in corpus(), "
+              "pre-fix tree is caught with a concrete history). Quantifier reading agreed with the coordinator: 'the pinned "
+              "version never decreases along a path' = the newly pinned component build contains the previously pinned one; "
+              "scenarios with incomparable consecutive pins (tag 'pin-crosses-parallel-builds') are compared with the model but "
+              "not judged. Missing for the full included_first / included_only_first / bump_build_reported theorems: that the "
+              "parent builds found by _find_new_rcommits_in_build are the nearest reported builds in git ancestry and that "
+              "bn_map sends a version to the latest reported build it contains. Trusted: Lean kernel, translator, adapter, mock "
+              "git, sampled correspondence (2-3 repositories, linear and DAG-shaped components and parents, 1-2 component release "
+              "lines, commits with two build tags, both supply orders; dependency graphs over <=6 repositories). Not modelled: "
+              "commit times (inside the cut-off windows by the quantifier), repository names (ranks in sorted() order).")
+TECHNIQUE = ("Lean 4: DFS invariant (topological order, path stack) for the repository ordering; closure/DFS specifications for "
+             "get_rbuilds_in_bump, invariants carried through the commit DFS for the stored bumps and skipped eligible commits; "
+             "executable model of bumps / bn_map / included_at + correspondence and spec oracle on multi-repository scenarios")
